@@ -241,7 +241,7 @@ func (nt *c13Net) valid(it c13Item) bool {
 	switch it.op {
 	case "CO":
 		_, ex := nt.users[a[0]]
-		return c13NickOK(a[0]) && c13NameOK(a[1]) && c13NameOK(a[2]) && c13TextOK(a[3]) && !ex
+		return c13NickOK(a[0]) && c13NameOK(a[1]) && c13NameOK(a[2]) && c13TextOK(a[3]) && c13MiddleOK(a[1]) && c13MiddleOK(a[2]) && !ex
 	case "JO":
 		_, ex := nt.users[a[0]]
 		return ex && c13ChanOK(a[1]) && !nt.on(a[1], a[0])
@@ -273,8 +273,12 @@ func (nt *c13Net) valid(it c13Item) bool {
 			}
 		}
 		return true
-	case "RM", "RW", "RN":
+	case "RM":
 		return true
+	case "RW":
+		return c13ChanOK(a[0])
+	case "RN":
+		return c13NickOK(a[0])
 	}
 	return false
 }
@@ -674,7 +678,7 @@ func c13Class(in Fields) string {
 	if c.kind == "sim" {
 		for _, it := range c.items {
 			if it.op == "MO" && !c13InClaim(it.chgs) {
-				cls = "sim-drift(D10)"
+				cls = "sim-drift(-k)"
 				break
 			}
 		}
@@ -682,15 +686,19 @@ func c13Class(in Fields) string {
 	return cls + ":" + sz
 }
 
-// Net.v modes_inclaim: no argument-taking letter (for the tracker) after "-k" or a list mode
+// Net.v modes_inclaim: no argument-taking letter (for the tracker: +k, +l, privileges, list
+// modes) after "-k" in the same line
+func c13Consumes(g c13Chg) bool {
+	return (g.letter == 'k' && g.add) || (g.letter == 'l' && g.add) || strings.IndexByte(c13PrivLetters, g.letter) >= 0 ||
+		strings.IndexByte(c13ListLetters, g.letter) >= 0
+}
 func c13InClaim(chgs []c13Chg) bool {
 	dirty := false
 	for _, g := range chgs {
-		consumes := (g.letter == 'k' && g.add) || (g.letter == 'l' && g.add) || strings.IndexByte(c13PrivLetters, g.letter) >= 0
-		if dirty && consumes {
+		if dirty && c13Consumes(g) {
 			return false
 		}
-		if (g.letter == 'k' && !g.add) || strings.IndexByte(c13ListLetters, g.letter) >= 0 {
+		if g.letter == 'k' && !g.add {
 			dirty = true
 		}
 	}
@@ -818,7 +826,7 @@ func (g *c13Gener) modeChanges(c string) []c13Chg {
 			if ch.add {
 				ch.arg = g.r.Pick([]string{"5", "12", "100", "2147483647", "1"})
 			}
-		case k < 19:
+		case k < 17:
 			ch.letter = c13PrivLetters[g.r.Intn(5)]
 			if g.r.Chance(50) {
 				ch.letter = "ov"[g.r.Intn(2)]
@@ -829,15 +837,14 @@ func (g *c13Gener) modeChanges(c string) []c13Chg {
 			}
 			ch.arg = m
 		default:
-			// list modes: kept last / alone by the rule below unless this is a drift session
+			// list modes with their mask, anywhere in the line (D10 fixed: inside the claim)
 			ch.letter = c13ListLetters[g.r.Intn(3)]
 			ch.arg = g.r.Pick([]string{"*!*@*", "al!*@*", "*!*@host.example"})
 		}
-		consumes := (ch.letter == 'k' && ch.add) || (ch.letter == 'l' && ch.add) || strings.IndexByte(c13PrivLetters, ch.letter) >= 0
-		if dirty && consumes && !g.drift {
-			continue // inside the claim: nothing argument-taking after -k / a list mode
+		if dirty && c13Consumes(ch) && !g.drift {
+			continue // inside the claim: nothing argument-taking after -k
 		}
-		if (ch.letter == 'k' && !ch.add) || strings.IndexByte(c13ListLetters, ch.letter) >= 0 {
+		if ch.letter == 'k' && !ch.add {
 			dirty = true
 		}
 		out = append(out, ch)
@@ -1187,7 +1194,7 @@ func c13Gen(r *Rand, tier string, scale int, emit func(in Fields)) {
 		hi = 1000
 	}
 	for i := 0; i < scale; i++ {
-		drift := i%25 == 24 // a few sessions with mode lines outside the claim (D10): not gated
+		drift := i%25 == 24 // a few sessions with argument-taking letters after -k (outside the claim): not gated
 		emit(c13Sim(r.Fork(), r.Range(lo, hi), r.Range(3, 8), r.Range(2, 5), 4, drift).fields())
 	}
 	for i := 0; i < 2*scale; i++ {
